@@ -127,14 +127,22 @@ def _check_refuse(i):
     from orquestra.quantum.circuits.symbolic.translations import translate_expression
     from orquestra.quantum.circuits.symbolic.expressions import FunctionCall, Symbol
     x, y = sympy.symbols("x y")
-    for e in (sympy.sinh(x), sympy.Abs(x), sympy.log(x) + 1, sympy.Max(x, y), sympy.Derivative(x ** 2, x), sympy.Sum(x * y, (y, 1, 3)), sympy.atan(x) * 2, sympy.Piecewise((x, x > 0), (y, True)),
-              sympy.Matrix([[x]])):
+    fns = [sympy.sinh, sympy.cosh, sympy.tanh, sympy.coth, sympy.sech, sympy.csch, sympy.asin, sympy.acos, sympy.atan, sympy.acot, sympy.asinh, sympy.acosh, sympy.atanh,
+           sympy.log, sympy.Abs, sympy.sign, sympy.floor, sympy.ceiling, sympy.erf, sympy.gamma, sympy.sec, sympy.csc, sympy.cot, sympy.sinc, sympy.conjugate, sympy.re, sympy.im,
+           sympy.arg, sympy.LambertW, sympy.factorial]
+    extra = [f(x) for f in fns] + [2 * f(x / 3) + y for f in fns[:14]]
+    for e in extra + [sympy.log(x) + 1, sympy.Max(x, y), sympy.Min(x, y), sympy.Derivative(x ** 2, x), sympy.Sum(x * y, (y, 1, 3)), sympy.atan(x) * 2, sympy.atan2(x, y),
+                      sympy.Piecewise((x, x > 0), (y, True)), sympy.Matrix([[x]])]:
         try:
             out = translate_expression(expression_from_sympy(e), SYMPY_DIALECT)
         except (NotImplementedError, ValueError, TypeError):
             continue
         try:
             same = sympy.simplify(out - e) == 0
+            if not same:
+                import random
+                rng = random.Random(2)
+                same = all(abs(complex(sympy.N((out - e).subs({x: rng.uniform(0.2, 0.8), y: rng.uniform(0.2, 0.8)})))) < 1e-9 for _ in range(3))
         except Exception:
             same = False
         if not same:
